@@ -22,6 +22,10 @@ type StructOpts struct {
 	Monitors []string
 	HostilePkgs bool
 	NConverters int
+	// CLIPackage: a CLI-level output:package PATH:NAME that every converter overrides with its own PATH
+	CLIPackage bool
+	// MethodSkipCopy: skipCopySameType is written on the first method only (siblings and shared sub-methods must deep-copy)
+	MethodSkipCopy bool
 	NValues  int
 	Seed     int64
 }
@@ -91,7 +95,7 @@ func (g *sgen) srcType(depth int, kind string) *Type {
 		if depth <= 0 {
 			choices = []string{"basic", "basic", "named"}
 		} else {
-			choices = []string{"basic", "basic", "named", "ptr", "ptr", "slice", "slice", "array", "map", "map", "struct", "struct", "nstruct", "nstruct", "nstruct", "reuse", "nslice", "nmap"}
+			choices = []string{"basic", "basic", "named", "ptr", "ptr", "slice", "slice", "array", "map", "map", "struct", "struct", "nstruct", "nstruct", "nstruct", "reuse", "nslice", "nmap", "narray"}
 		}
 		kind = choices[r.Intn(len(choices))]
 	}
@@ -134,6 +138,8 @@ func (g *sgen) srcType(depth int, kind string) *Type {
 		return Named(d)
 	case "nslice":
 		return Named(g.newDecl(g.src, "SL", Slice(g.srcType(depth-1, ""))))
+	case "narray":
+		return Named(g.newDecl(g.src, "SA", Array(1+r.Intn(3), g.srcType(depth-1, ""))))
 	case "nmap":
 		return Named(g.newDecl(g.src, "SM", Map(g.keyType(), g.srcType(depth-1, ""))))
 	case "reuse":
@@ -189,13 +195,25 @@ func (g *sgen) structType(depth int) *Type {
 // assignPos: the position is filled by an Assign (field / list element) rather than Build.
 func (g *sgen) derive(t *Type, assignPos bool, depth int) *Type {
 	r := g.r
+	if t.K == KNamed && t.Decl.Under.K == KArray {
+		// a named array converts to a slice like an unnamed one
+		inner := Slice(g.derive(t.Decl.Under.Elem, true, depth+1))
+		if assignPos && !g.o.AllowArrayAssign {
+			return Ptr(inner)
+		}
+		return inner
+	}
 	if t.K == KArray && assignPos && !g.o.AllowArrayAssign {
 		// [N]T -> []T at an assignment position is the known finding F-C02-array-assign;
 		// a pointer target is built (allocated) instead of assigned.
 		return Ptr(Slice(g.derive(t.Elem, true, depth+1)))
 	}
 	// identical type on both sides (deep copy unless skipCopySameType)
-	if depth > 0 && r.Intn(6) == 0 && g.identicalOK(t) {
+	identProb := 6
+	if g.o.MethodSkipCopy {
+		identProb = 2
+	}
+	if depth > 0 && r.Intn(identProb) == 0 && g.identicalOK(t) {
 		return t
 	}
 	// T -> *T'
@@ -245,6 +263,12 @@ func (g *sgen) derive(t *Type, assignPos bool, depth int) *Type {
 
 func (g *sgen) deriveUnder(t *Type, depth int) *Type {
 	r := g.r
+	if (g.o.SkipCopy || g.o.MethodSkipCopy) && (t.K == KSlice || t.K == KMap) && r.Intn(3) == 0 && g.identicalOK(t) {
+		// a named target type whose underlying type is identical to the unnamed source type: assignable, NOT identical,
+		// so skipCopySameType must not apply and the value must be deep-copied
+		prefix := map[Kind]string{KSlice: "TAL", KMap: "TAM"}[t.K]
+		return Named(g.newDecl(g.tgt, prefix, t))
+	}
 	switch t.K {
 	case KSlice:
 		return Slice(g.derive(t.Elem, true, depth+1))
@@ -437,6 +461,12 @@ func Structural(r *rand.Rand, name string, o StructOpts) *Case {
 			cv.OutPkgPath, cv.OutPkgName = convPkg.Path, convPkg.Name
 		default:
 			cv.OutPkgPath, cv.OutPkgName = convPkg.Path+"/generated", "generated"
+			if o.CLIPackage {
+				if k == 0 {
+					c.Args = append(c.Args, "-g", "output:package "+c.Root+"/elsewhere:globalname")
+				}
+				cv.Lines = append(cv.Lines, "output:package "+c.Root+"/"+convPkg.Path+"/generated")
+			}
 			if k > 0 && r.Intn(2) == 0 {
 				cv.Lines = append(cv.Lines, fmt.Sprintf("output:file ./generated/second%d.go", k))
 				c.Feature("tag", appendTag(c.Features["tag"], "multi-file-pkg"))
@@ -489,6 +519,10 @@ func Structural(r *rand.Rand, name string, o StructOpts) *Case {
 				Result: t,
 				Spec:   &vref.MethodSpec{Name: mname, Roles: []string{"source"}, Flags: flags},
 			}
+			if o.MethodSkipCopy && i == 0 && k == 0 {
+				m.Lines = append(m.Lines, "skipCopySameType")
+				m.Spec.Flags.SkipCopy = true
+			}
 			cv.Methods = append(cv.Methods, m)
 		}
 		if len(cv.Methods) == 0 {
@@ -513,6 +547,7 @@ func Structural(r *rand.Rand, name string, o StructOpts) *Case {
 	c.Feature("top", o.TopKind)
 	c.Feature("converters", fmt.Sprint(len(c.Convs)))
 	c.Feature("hostilepkgs", fmt.Sprint(o.HostilePkgs))
+	c.Feature("methodskipcopy", fmt.Sprint(o.MethodSkipCopy))
 	return c
 }
 
